@@ -65,6 +65,11 @@ RECURSIVE SumW(_,_)
 SumW(items, S) == IF S = {} THEN 0 ELSE LET i == CHOOSE i \in S : TRUE IN items[i][2] + SumW(items, S \ {i})
 Solutions(items, s) == {S \in SUBSET (1..Len(items)) : SumW(items, S) = s}
 Solvable(items, s) == Solutions(items, s) # {}
+\* the same by the reachable-sums recurrence (for lists too long to enumerate their sub-collections)
+RECURSIVE ReachSums(_,_,_)
+ReachSums(items, s, i) == IF i = 0 THEN {0}
+                          ELSE LET R == ReachSums(items, s, i - 1)  w == items[i][2] IN R \cup {x + w : x \in {y \in R : y + w <= s}}
+SolvableDP(items, s) == s \in ReachSums(items, s, Len(items))
 MinCard(items, s) == LET Z == Solutions(items, s) IN CHOOSE c \in 0..Len(items) : (\E S \in Z : Cardinality(S) = c) /\ \A S \in Z : Cardinality(S) >= c
 \* res is a sub-collection of items (as bags) with total weight s
 RECURSIVE SumSeq(_,_)
